@@ -167,9 +167,11 @@ impl Family for C04Travel {
     let mut delivered = 0u64;
     // every position of the faulted script
     for k in 0..=base.len() {
+      // the payload type varies with the id (rec::mk_err): token struct, String, nested RxError
+      let eid = ERR_ID + (k as i64 % 7);
       let mut with_err = spec.clone();
       let mut sc: Vec<Step> = base[..k].to_vec();
-      sc.push(Step::E(ERR_ID));
+      sc.push(Step::E(eid));
       with_err.sources[0].scripts = vec![sc];
       let mut cut = spec.clone();
       cut.sources[0].scripts = vec![base[..k].to_vec()];
@@ -193,9 +195,9 @@ impl Family for C04Travel {
       // was the error really emitted into a live pipeline?
       let emitted = {
         let l = rb.src_logs[0].lock().unwrap();
-        l.emits.iter().find(|e| e.step == Step::E(ERR_ID)).map(|e| (e.seq_start, e.sub_before))
+        l.emits.iter().find(|e| e.step == Step::E(eid)).map(|e| (e.seq_start, e.sub_before))
       }
-      .or_else(|| rb.subject_emits.iter().find(|e| e.src == 0 && e.step == Step::E(ERR_ID)).map(|e| (e.seq_start, e.observers_before > 0)));
+      .or_else(|| rb.subject_emits.iter().find(|e| e.src == 0 && e.step == Step::E(eid)).map(|e| (e.seq_start, e.observers_before > 0)));
       // under amb the error only has to travel when source 0 is the first input to signal
       let first_signal = |r: &SeqRun, i: usize| -> Option<u64> {
         let a = r.src_logs[i].lock().unwrap().emits.first().map(|e| e.seq_start);
@@ -225,16 +227,16 @@ impl Family for C04Travel {
           let prefix_b: Vec<Ev> = evb[..n_before].to_vec();
           let prefix_a: Vec<Ev> = eva_full.iter().take(n_before).map(|e| e.ev.clone()).collect();
           let ended_before = prefix_b.iter().any(|e| e.is_terminal());
-          let n_err = evb.iter().filter(|e| **e == Ev::Error(ERR_ID)).count();
+          let n_err = evb.iter().filter(|e| **e == Ev::Error(eid)).count();
           if prefix_a != prefix_b {
             v.push(Violation::new("prefix-differs", &blame, format!("pipeline {}: with the error at position {} the events before it are [{}], without it [{}]", pshow, k, show(&prefix_b), show(&prefix_a))));
           } else if !ended_before {
             delivered += 1;
             let tail: Vec<Ev> = evb[n_before..].to_vec();
-            if n_err != 1 || tail.last() != Some(&Ev::Error(ERR_ID)) {
+            if n_err != 1 || tail.last() != Some(&Ev::Error(eid)) {
               let class = if n_err > 1 {
                 "error-duplicated"
-              } else if tail.iter().any(|e| matches!(e, Ev::Error(x) if *x != ERR_ID)) {
+              } else if tail.iter().any(|e| matches!(e, Ev::Error(x) if *x != eid)) {
                 "error-payload-changed"
               } else if n_err == 0 {
                 "error-swallowed"
@@ -244,7 +246,7 @@ impl Family for C04Travel {
               v.push(Violation::new(
                 class,
                 &blame,
-                format!("pipeline {}: source 0 raised ErrTok({}) at position {} (after [{}]); the subscriber then received [{}] - expected the very same error, once, as the last event", pshow, ERR_ID, k, show(&prefix_b), show(&tail)),
+                format!("pipeline {}: source 0 raised ErrTok({}) at position {} (after [{}]); the subscriber then received [{}] - expected the very same error, once, as the last event", pshow, eid, k, show(&prefix_b), show(&tail)),
               ));
             } else if tail.iter().filter(|e| e.is_terminal()).count() != 1 {
               v.push(Violation::new("event-after-error", &blame, format!("pipeline {}: error at position {}: [{}]", pshow, k, show(&tail))));
